@@ -100,6 +100,8 @@ pub enum TOp {
     OpenSame,
     Reduce,
     Reverse,
+    /// opposite order of three times the position's value: the re-opening leg is twice what the closing leg released
+    ReverseBig,
     Deposit,
     Withdraw,
     Close,
@@ -222,12 +224,22 @@ impl GenCtx {
                             // record of size zero remains): he has acted in this block and may not act again
                             script.push(Plan::TraderOp { vi, who, op: TOp::FlatReverse, block: Blk::Same });
                         }
+                        if round == 0 && who == Who::Bystander(liq, victim) && tx.height % 2 == 1 {
+                            // a bystander whose position dates from an earlier block closes first (the engine may turn that into a
+                            // partial close): from then on he has acted in this block
+                            script.push(Plan::TraderOp { vi, who, op: TOp::Close, block: Blk::Same });
+                        }
                         script.push(Plan::TraderOp { vi, who, op: TOp::OpenSame, block: Blk::Same });
                         if round == 0 && who == Who::Id(liq) {
                             // the liquidator, whose own position was just updated in this block, liquidates again
                             script.push(Plan::LiqBy { vi, by: liq, block: Blk::Same });
                         }
                         script.push(Plan::TraderOp { vi, who, op: TOp::Close, block: Blk::Same });
+                        if round == 0 && who == Who::Bystander(liq, victim) {
+                            // if that close was turned into a PARTIAL close (band + partial ratio), the position is still there and
+                            // was updated in this block: a second close in the block must be refused
+                            script.push(Plan::TraderOp { vi, who, op: TOp::Close, block: Blk::Same });
+                        }
                     }
                 }
                 for p in script.into_iter().rev() {
@@ -627,6 +639,14 @@ fn start_campaign(w: &World, r: &mut Rng, g: &mut GenCtx, vis: &[VInfo], ps: &[P
         // larger than the shortfall the native bookkeeping of the required coins nets the two)
         g.plan.push_back(Plan::TraderOp { vi, who: Who::Id(victim), op: TOp::Reverse, block: Blk::Next });
     }
+    if target < 0 && r.chance(1, 4) {
+        // the engine is paused while the (under-water) victim is liquidated: Liquidate stays available, bad debt included
+        g.plan.push_back(Plan::Pause { p: true });
+        g.plan.push_back(Plan::Liq { vi, victim, first: false });
+        g.plan.push_back(Plan::PayFunding { vi, by: STRANGER, block: Blk::Free });
+        g.plan.push_back(Plan::Pause { p: false });
+        return true;
+    }
     let plr_now = w.engine_config().map(|c| c.partial_liquidation_ratio.u128()).unwrap_or(0);
     if plr_now != 0 && target > 0 && r.chance(1, 3) {
         // a partial liquidation whose fee is zero (fee ratio 0), then — fee ratio restored — a second liquidation of the
@@ -857,6 +877,7 @@ fn realize(w: &World, r: &mut Rng, g: &mut GenCtx, plan: &Plan, vis: &[VInfo], p
                 (TOp::OpenSame, None) => open(0, (v.q / 200).max(d)),
                 (TOp::Reduce, Some(p)) => open(1 - p.dir, (value(p) / 2).max(1)),
                 (TOp::Reverse, Some(p)) => open(1 - p.dir, value(p) * 3 / 2 + d),
+                (TOp::ReverseBig, Some(p)) => open(1 - p.dir, value(p) * 3 + d),
                 (TOp::Deposit, Some(p)) => {
                     let amt = (p.margin / 10).max(1);
                     let mut dr = draft(trader, Msg::Deposit { v: v.id, amt });
@@ -1390,6 +1411,8 @@ fn start_config(w: &World, r: &mut Rng, g: &mut GenCtx, vis: &[VInfo], ps: &[Pos
                 let op = if hold { TOp::OpenToHoldCap(k) } else { TOp::OpenToOiCap(k) };
                 g.plan.push_back(Plan::TraderOp { vi, who: Who::Id(trader), op, block: Blk::Free });
             }
+            // with the open interest (or the holding) at its cap: a REVERSAL, whose re-opening leg would exceed the cap
+            g.plan.push_back(Plan::TraderOp { vi, who: Who::Id(trader), op: TOp::ReverseBig, block: Blk::Free });
         }
         if matches!(kind, CKind::VCaps) {
             // above a cap by exemption or by a later change of the cap, then no longer exempt: an increase must be refused
@@ -1516,7 +1539,15 @@ fn start_pump(w: &World, r: &mut Rng, g: &mut GenCtx, vis: &[VInfo], ps: &[PosIn
     g.plan.push_back(Plan::OpenFrac { vi: v.idx, trader: p, long, frac_ppm: r.range(80_000, 150_000) as u128, high: false });
     g.plan.push_back(Plan::OpenFrac { vi: v.idx, trader: x, long, frac_ppm: r.range(80_000, 200_000) as u128, high: true });
     g.plan.push_back(Plan::OpenFrac { vi: v.idx, trader: y, long, frac_ppm: r.range(80_000, 200_000) as u128, high: true });
+    if free.len() >= 4 {
+        // a fourth, lightly leveraged holder: after the profit-taker emptied the vault he withdraws part of his free collateral
+        // (paid out of a vault that is short; the insurance fund may be short too)
+        g.plan.push_front(Plan::OpenFrac { vi: v.idx, trader: free[3], long, frac_ppm: 20_000, high: false });
+    }
     g.plan.push_back(Plan::CloseBy { vi: v.idx, trader: p });
+    if free.len() >= 4 {
+        g.plan.push_back(Plan::TraderOp { vi: v.idx, who: Who::Id(free[3]), op: TOp::Withdraw, block: Blk::Free });
+    }
     g.plan.push_back(Plan::AlignOracle { vi: v.idx });
     g.plan.push_back(Plan::Liq { vi: v.idx, victim: y, first: true });
     g.plan.push_back(Plan::Liq { vi: v.idx, victim: x, first: false });
